@@ -89,6 +89,20 @@ func (c *Ctx) define(prefix, sort, term string) string {
 	return n
 }
 
+// defineConst names a term by a declared constant plus a defining equation (unlike
+// define-fun, the solver does not inline it, so it can appear in quantifier triggers).
+func (c *Ctx) defineConst(prefix, sort, term string) string {
+	if isAtom(term) {
+		if i, ok := c.idx[term]; ok && strings.HasPrefix(c.defs[i].line, "(declare-const") {
+			return term
+		}
+	}
+	n := c.name(prefix)
+	c.idx[n] = len(c.defs)
+	c.defs = append(c.defs, defn{name: n, line: fmt.Sprintf("(declare-const %s %s)\n(assert (= %s %s))", n, sort, n, term)})
+	return n
+}
+
 // defineGuard is define for path guards: when the added conjunct is quantified, a weaker
 // alternative without it is recorded (dropping an assumption is always sound).
 func (c *Ctx) defineGuard(prev, conj string) string {
@@ -105,35 +119,101 @@ func (c *Ctx) defineGuard(prev, conj string) string {
 	return n
 }
 
-// selectOf simplifies (select h ref) when h is defined as a store at the very same term.
+// selectOf simplifies (select h ref) when h is (a merge of) stores at the very same term.
 func (c *Ctx) selectOf(h, ref string) string {
-	for depth := 0; depth < 4; depth++ {
+	if v := c.resolveSelect(h, ref, 0); v != "" {
+		return v
+	}
+	return "(select " + h + " " + ref + ")"
+}
+
+func (c *Ctx) resolveSelect(h, ref string, depth int) string {
+	if depth > 12 {
+		return ""
+	}
+	body := h
+	if isAtom(h) {
 		i, ok := c.idx[h]
 		if !ok {
-			break
+			return ""
 		}
 		line := c.defs[i].line
 		pre := "(define-fun " + h + " () "
 		if !strings.HasPrefix(line, pre) {
-			break
+			return ""
 		}
-		// body is the last top-level s-expression
-		body := strings.TrimSuffix(line, ")")
-		k := strings.Index(body, "(store ")
-		if k < 0 || !strings.HasSuffix(strings.TrimSpace(body[:k]), ")") && !strings.HasSuffix(strings.TrimSpace(body[:k]), "Bool") && false {
-			break
+		parts := splitSexprArgs(line)
+		if len(parts) != 5 {
+			return ""
 		}
-		st := body[k:]
-		parts := splitSexprArgs(st)
-		if len(parts) != 4 || parts[0] != "store" {
-			break
+		body = parts[4]
+	}
+	if isAtom(body) {
+		if body == h {
+			return ""
 		}
+		return c.resolveSelect(body, ref, depth+1)
+	}
+	parts := splitSexprArgs(body)
+	switch {
+	case len(parts) == 4 && parts[0] == "store":
 		if parts[2] == ref {
 			return parts[3]
 		}
-		break
+		return ""
+	case len(parts) == 4 && parts[0] == "ite":
+		x := c.resolveSelect(parts[2], ref, depth+1)
+		if x == "" {
+			return ""
+		}
+		y := c.resolveSelect(parts[3], ref, depth+1)
+		if x == y {
+			return x
+		}
+		if y == "" {
+			return ""
+		}
+		return "(ite " + parts[1] + " " + x + " " + y + ")"
 	}
-	return "(select " + h + " " + ref + ")"
+	return ""
+}
+
+// chainOf views an array term as a chain of stores over a root: it returns the root and
+// the references stored to, innermost first.
+func (c *Ctx) chainOf(t string) (root string, refs []string) {
+	for depth := 0; depth < 64; depth++ {
+		body := t
+		if isAtom(t) {
+			i, ok := c.idx[t]
+			if !ok {
+				return t, refs
+			}
+			line := c.defs[i].line
+			if !strings.HasPrefix(line, "(define-fun "+t+" () ") {
+				return t, refs
+			}
+			parts := splitSexprArgs(line)
+			if len(parts) != 5 {
+				return t, refs
+			}
+			body = parts[4]
+		}
+		if isAtom(body) {
+			if body == t {
+				return t, refs
+			}
+			t = body
+			continue
+		}
+		parts := splitSexprArgs(body)
+		if len(parts) == 4 && parts[0] == "store" {
+			refs = append([]string{parts[2]}, refs...)
+			t = parts[1]
+			continue
+		}
+		return t, refs
+	}
+	return t, refs
 }
 
 // splitSexprArgs splits "(f a b c)" into [f a b c] at the top level.
@@ -530,6 +610,11 @@ func solve2(name, script, alt string, budget int) SolveResult {
 	quick := 4
 	if budget < quick {
 		quick = budget
+	}
+	if alt == "-" {
+		// cube of a case split: most are trivial; give z3-new the whole budget first
+		quick = budget
+		alt = ""
 	}
 	r := runOne(context.Background(), solvers[0], file, quick)
 	r.File, r.SHA = file, sha
